@@ -934,10 +934,12 @@ patch_out (program_t * prog, short *patches, size_t len)
   p = prog->program;
   while (len > 0)
     {
-      i = patches[--len];
+      /* addresses in the program are unsigned 16-bit numbers (f_switch() reads
+       * them so): a switch in the upper half of a large program is at 32768.. */
+      i = (unsigned short) patches[--len];
       if (p[i] == F_SWITCH && p[i + 1] >> 4 != 0xf)
         {			/* string switch */
-          short offset, break_addr;
+          unsigned short offset, break_addr;
           char *s;
 
           /* replace strings in table with string table indices */
@@ -982,10 +984,11 @@ patch_in (program_t * prog, short *patches, size_t len)
   p = prog->program;
   while (len > 0)
     {
-      i = patches[--len];
+      /* unsigned 16-bit addresses, see patch_out() */
+      i = (unsigned short) patches[--len];
       if (p[i] == F_SWITCH && p[i + 1] >> 4 != 0xf)
         {			/* string switch */
-          short offset, start, break_addr;
+          unsigned short offset, start, break_addr;
           char *s;
 
           /* replace string indices with string pointers */
